@@ -190,7 +190,7 @@ fn gen_chain(rng: &mut StdRng, abs: &mut Abs, cfg: &Cfg, e: &mut Emit) -> Vec<Bl
 async fn settle() { for _ in 0..96 { tokio::task::yield_now().await; } }
 fn drain<T>(rx: &mut Receiver<T>) -> Vec<T> { let mut v = vec![]; while let Ok(x) = rx.try_recv() { v.push(x); } v }
 
-enum Feed { Propose(Block), Loop(usize), Batch(u8) }
+enum Feed { Propose(Block), Loop(usize), Batch(u8), Timer }
 
 #[allow(dead_code)]
 struct RealNode {
@@ -243,6 +243,7 @@ impl RealNode {
             Feed::Propose(b) => { let nm = abs.block(&b); (format!("EvPropose {}", nm), format!("propose r{} by {}", b.round, abs.id(&b.author)), Some(VerifEvent::Message(ConsensusMessage::Propose(b)))) }
             Feed::Loop(i) => { let b = self.pool.remove(i); let nm = abs.block(&b); (format!("EvLoopback {}", nm), format!("loopback r{}", b.round), Some(VerifEvent::Loopback(b))) }
             Feed::Batch(k) => { self.store.write(batch_digest(k).to_vec(), vec![k]).await; (format!("EvBatch {}", k), format!("batch {}", k), None) }
+            Feed::Timer => ("EvTimer".to_string(), "timer".to_string(), Some(VerifEvent::Timer)),
         };
         e.stat(&format!("ev:{}", human.split(' ').next().unwrap()), 1);
         let res: &str = match ve {
@@ -376,8 +377,13 @@ async fn run_case(seed: u64, case: usize, dbroot: &str, e: &mut Emit) -> (String
     reqq.extend(b.feed(&mut abs, e, Feed::Propose(chain[len - 1].clone())).await);
     if let Some(m) = extra { reqq.extend(b.feed(&mut abs, e, Feed::Propose(chain[m].clone())).await); }
     let mut answered = 0usize; let mut unanswered = 0usize; let mut guard = 0usize;
+    // while B waits for its missing ancestors its round timer may expire (an unresponsive first sync target means waiting longer than
+    // the round timeout): in 40 % of the cases B's timer fires once right after the newest proposal, and sometimes again between replies
+    let timers = rng.gen_bool(0.4);
+    if timers { e.stat("b_timer_expires_while_syncing", 1); reqq.extend(b.feed(&mut abs, e, Feed::Timer).await); }
     while (!reqq.is_empty() || !b.pool.is_empty()) && !b.panicked && guard < 1000 {
         guard += 1;
+        if timers && rng.gen_bool(0.15) { reqq.extend(b.feed(&mut abs, e, Feed::Timer).await); }
         if !b.pool.is_empty() && (reqq.is_empty() || rng.gen_bool(0.5)) {
             let i = rng.gen_range(0, b.pool.len());
             reqq.extend(b.feed(&mut abs, e, Feed::Loop(i)).await);
